@@ -21,8 +21,13 @@
   CPython's dict is modelled as an association list in insertion order whose key
   comparison is Python's `==` on the hashable Klong atoms (`keyEq`): `1 == 1.0`, a KGChar
   equals the one-character str with the same text (KGChar subclasses str), a KGSym equals
-  only a KGSym.  Values are opaque to every dictionary operation: `Val.data w` carries the
-  canonical text of any non-dictionary value, `Val.ref r` is a dictionary reference.
+  only a KGSym.  This is the comparison of the REPAIRED tree (fix-c10: `KGChar.__eq__`
+  refuses symbols); the pinned tree's comparison (`keyEqPinned`: a stored KGChar equals a
+  probing KGSym, not vice versa) is kept only for the recorded witness in Props/C10.lean.
+  Because `keyEq` is an equivalence that agrees with `hash`, which of several colliding
+  slots CPython probes first is unobservable, and insertion order is a faithful stand-in.
+  Values are opaque to every dictionary operation: `Val.data w` carries the canonical text
+  of any non-dictionary value, `Val.ref r` is a dictionary reference.
 
   The abstract specification (`AState`, `specStep`, `specOut`) is a heap of finite maps
   `NKey → Option Val` over key identities.
